@@ -155,7 +155,7 @@ Inductive after := AStart (arg : Z) (work : nat) | AJoin | AGet.
 
 Inductive kont :=
 | KRunPush1 (j : job) | KRunPush2 (j : job) | KRunReset (j : job) | KRunWait (j : job) | KRunSet
-| KShrinkPush
+| KShrinkPush | KShrinkSet
 | KWPop1 | KWPop2 | KWReset | KWWait | KWRearm (j : job) | KWSet (j : job).
 
 Inductive pc :=
@@ -218,7 +218,7 @@ Record config := mkConfig {
   c_nfut : nat;
   c_scripts : list (list (nat * cop));     (* one script per client thread; ops carry their index *)
   c_fn : Z -> Z;                           (* the started function (argument -> return value) *)
-  c_fixed : bool                           (* true: the code after fixes/C10/01+02 (what the tree is
+  c_fixed : bool                           (* true: the code after fixes/C10/01+02+03 (what the tree is
                                               now); false: the sleep/wake handshake as it was (only
                                               used by the refutation theorems) *)
 }.
@@ -313,6 +313,7 @@ Definition after_fs (k : kont) : pc :=
   | KRunReset j => PRing (KRunPush2 j) (PushRdTail j)
   | KRunWait j => PRing (KRunPush1 j) (PushRdTail j)
   | KRunSet => CInc
+  | KShrinkSet => CShrinkUnlock
   | KWReset => PRing KWPop2 PopRdHead
   | KWWait => worker_entry
   | KWRearm j => PFs (KWSet j) Deq FSet1
@@ -435,7 +436,10 @@ Definition step (cfg : config) (s : state) (t : nat) (clk : bool) : state * list
   | CShrinkChk =>
       if c_min cfg <? st_tcount s then (goto s t (PRing KShrinkPush (PushRdTail JNull)), [])
       else (goto s t CShrinkUnlock, [])
-  | CShrinkDec => (goto (set_tcount s (st_tcount s - 1)) t CShrinkUnlock, [EvShrink t])
+  | CShrinkDec =>
+      (* --_threadCount; fixes/C10/03: _enqueuedSignal.set() so that a sleeping worker takes the null job *)
+      (goto (set_tcount s (st_tcount s - 1)) t (if c_fixed cfg then PFs KShrinkSet Enq FSet1 else CShrinkUnlock),
+       [EvShrink t])
   | CShrinkUnlock => (goto (set_mtx s false) t PIdle, [])
   | WCall f n arg work =>
       let x := get_fut s f in
